@@ -422,7 +422,9 @@ def transferStep (isRet : Bool) (d : Dir) (t : Ty) (cur : Option Str) (ann : Opt
     (hasArray : Bool) : M (Option Str × Bool) :=
   match ann with
   | some [tr] =>
-    if tr == G Gen.ParamAnn.optTransferFloating then
+    -- `if transfer not in TRANSFER_OPTIONS: return` (already reported by the annotation parser)
+    if !(Gen.ParamAnn.transferOptions.any (fun o => G o == tr)) then .ok (cur, false)
+    else if tr == G Gen.ParamAnn.optTransferFloating then
       if !isClassLike t.cls && nodeTypeGiname t != some (G "GLib.Variant")
           && nodeTypeGiname t != some (G "GObject.Closure") then .ok (cur, true)
       else .ok (some (G Gen.ParamAnn.optTransferNone), false)
@@ -754,8 +756,11 @@ def callbackStep (c : Callable) (i : Nat) (part : Str) (tag : Option Anns) : M (
       let w (o : Option (List Str)) (n : String) : List Warning := if o.isSome then [⟨G n, .ann part⟩] else []
       pure (c, w a.scope "scope" ++ w a.destroy "destroy" ++ w a.closure "closure")
     else do
+      -- `len(scope_annotation) == 1 and scope_annotation[0] in SCOPE_OPTIONS`
       let c1 := match a.scope with
-        | some [s] => c.setAll i (fun p => { p with scope := some s })
+        | some [s] =>
+          if Gen.ParamAnn.scopeOptions.any (fun o => G o == s) then c.setAll i (fun p => { p with scope := some s })
+          else c
         | _ => c
       let c2 ←
         match a.destroy with
@@ -917,14 +922,10 @@ def splitInstance (c : Callable) : Callable :=
   | none, p :: rest => { c with inst := some p, params := rest }
   | _, _ => c
 
-/-- `_check_instance_parameter`: `annotations.get(ANN_TRANSFER, ['none'])[0]` -/
-def checkInstanceParameter (c : Callable) (doc : Option Doc) : M Unit :=
-  match c.kind, c.inst, doc with
-  | .function, some i, some d =>
-    match (d.find i.name).bind (·.transfer) with
-    | some [] => .error (.raises (G "IndexError: list index out of range"))
-    | _ => .ok ()
-  | _, _, _ => .ok ()
+/-- `_check_instance_parameter`: `(annotations.get(ANN_TRANSFER) or [OPT_TRANSFER_NONE])[0]` — a bare
+    `(transfer)` (empty option list) falls back to `none`; the function only emits strict-mode
+    messages, which are not part of the comparison, and never raises -/
+def checkInstanceParameter (_c : Callable) (_doc : Option Doc) : M Unit := .ok ()
 
 def cbGiName (t : Ty) : Option Str :=
   match t.cls with
@@ -1150,16 +1151,17 @@ def writeParam (ns : Str) (c : Callable) (p : Node) : M XNode := do
   pure ⟨a, p.attrs, t⟩
 
 def retAttrs (r : Node) : List (Str × Str) :=
-  (match truthy r.transfer with | some t => [(G "transfer-ownership", t)] | none => [])
+  (match truthy r.transfer with
+   | some t => [(G "transfer-ownership", t)]
+   -- `elif return_.skip:` the attribute is mandatory in the GIR
+   | none => b2l r.skip (G "transfer-ownership", G Gen.ParamAnn.transferNone))
   ++ b2l r.skip (G "skip", G "1")
   ++ b2l (r.nullable && !r.notNullable) (G "nullable", G "1")
 
-/-- `_write_return_type(return_, parent)`: signals pass no parent -/
+/-- `_write_return_type(return_, parent)`: every caller (`_write_callable`, `_write_signal`) passes
+    the callable as parent -/
 def writeReturn (ns : Str) (c : Callable) : M XNode := do
-  let lenIndex : Str → M Nat :=
-    if c.kind == .signal then fun _ => .error (.raises (G "AssertionError: parent not a callable or compound"))
-    else indexOf c
-  let t ← writeType ns lenIndex c.ret.ty
+  let t ← writeType ns (indexOf c) c.ret.ty
   pure ⟨retAttrs c.ret, c.ret.attrs, t⟩
 
 structure Written where
